@@ -11,3 +11,6 @@ TRUSTED = [
     "CounterToken._update: cache = directory listing (assumed clause, consequence of the glob contract)",
     "heap typing: declared field types are assumed on reads and checked on writes in the functions under contract",
 ]
+
+from bounded.tokens import run_counter_token, run_process_token
+BOUNDED = [("counter-token grid on real files", run_counter_token), ("process-token grid", run_process_token)]
